@@ -40,6 +40,11 @@ type dialogWorld struct {
 	lastRot  []int // per service: index of the backend that got the last unpinned request (-1 unknown)
 	rotOrder [][]int
 	stats    map[string]int
+	// linger: dialogs on short-timeout services that outlive their history and are probed
+	// again at the start of later ones, while provably inside their lifetime (periodic
+	// sweeps of the pin table pass in between)
+	linger       []*dlg
+	lastStraddle time.Time
 }
 
 // backendIndex maps an endpoint name "be<s>.<k>/udp" to k-1.
@@ -391,6 +396,43 @@ func (w *dialogWorld) concurrentSetup(h int) {
 // history runs one interleaved history on one service.
 func (w *dialogWorld) history(h int) {
 	g := w.g
+	var keep []*dlg
+	touched := map[int]bool{}
+	for _, d := range w.linger {
+		age := time.Since(d.pinStart)
+		if d.ended || !d.pinned || age > time.Duration(w.Svcs[d.svc].DialogTimeout)*time.Second-800*time.Millisecond {
+			continue
+		}
+		if age > 250*time.Millisecond && w.run.Violations() <= 6 {
+			if !touched[d.svc] {
+				// other traffic through the service first: whatever the proxy does to its table of
+				// pins when new entries arrive has happened before the probe
+				touched[d.svc] = true
+				w.unrelated(d.svc)
+			}
+			w.probe(d)
+			w.stats["probes_of_dialogs_that_outlived_their_history"]++
+		}
+		keep = append(keep, d)
+	}
+	w.linger = keep
+	if time.Since(w.lastStraddle) > 900*time.Millisecond && len(w.linger) < 16 {
+		// about once a second a plain call is set up on a short-timeout service and left alone:
+		// every periodic sweep of that service's pins falls into the lifetime of two of them
+		w.lastStraddle = time.Now()
+		for s, sv := range w.Svcs {
+			if sv.DialogTimeout > 0 && s%8 != 7 {
+				d := &dlg{n: 900 + h, svc: s, backend: -1, kind: "invite"}
+				d.callID = g.Alnum(8, 14) + "@" + g.Hostname()
+				d.a, d.b = w.genParty(h*100+90, "alice"), w.genParty(h*100+90, "bob")
+				w.stepDialog(d)
+				if d.pinned && !d.ended {
+					w.linger = append(w.linger, d)
+					w.stats["calls_set_up_to_straddle_a_sweep"]++
+				}
+			}
+		}
+	}
 	if h%5 == 4 {
 		w.concurrentSetup(h)
 		return
@@ -440,6 +482,11 @@ func (w *dialogWorld) history(h int) {
 			w.unrelated(svc)
 		}
 		w.stepDialog(d)
+	}
+	for _, d := range ds {
+		if sv := w.Svcs[d.svc]; sv.DialogTimeout > 0 && d.svc%8 != 7 && d.kind == "invite" && d.pinned && !d.ended && len(w.linger) < 16 {
+			w.linger = append(w.linger, d)
+		}
 	}
 }
 
